@@ -116,7 +116,10 @@ def float_literal(x):
     return ('-' if (x < 0 or (x == 0 and str(x).startswith('-'))) else '') + s
 
 
-def str_literal(s):
+def str_literal(s, allow_backslash=False):
+    # a backslash before a quote is an escape to the lexer (C05's subject): other checks avoid spelling it
+    if '\\' in s and not allow_backslash:
+        raise NoLiteral(s)
     if '"' not in s:
         return '"' + s + '"'
     if "'" not in s:
